@@ -210,6 +210,8 @@ def onpolicy_cases(chk, rng, n):
         script = [(int(rng.choice([2, 3, 5])), str(rng.choice(["term", "trunc"]))) for _ in range(3)]
         total, spu, tae = int(rng.choice([0, 1, 7, 15])), int(rng.choice([1, 4, 6])), bool(rng.integers(0, 2))
         which = ["reinforce", "actor_critic", "a2c"][i % 3]
+        if i < 3:      # corner: episodes whose lengths add up to exactly steps_per_update (the collection must stop there)
+            script, total, spu, tae = [(2, "trunc"), (2, "term"), (2, "trunc")], 7, 4, False
         if which != "a2c":
             env = ScriptEnv(script, discrete=2, reward_scale=0.25)
             case = {"routine": "train_" + which, "script": script, "total_timesteps": total, "steps_per_update": spu, "train_after_episode": tae}
@@ -263,6 +265,62 @@ def onpolicy_cases(chk, rng, n):
                     chk.fail("C11:train_a2c:budget", "vector-environment steps differ from ceil(total_timesteps / (steps_per_update * n_envs)) rollouts of steps_per_update steps",
                              {"case": case, "env": j, "vector_steps": calls, "expected": iters * T})
                     break
+
+
+def smt_cases(chk, rng, n):
+    """train_smt with a contract-obeying stub routine: per-task totals are the steps executed on each task's environment (also for tasks
+    that leave and re-enter the training pool) and their sum does not exceed b1 + b2"""
+    from collections import namedtuple
+
+    from rl_blox.algorithm.smt import train_smt
+    from rl_blox.blox.replay_buffer import MultiTaskReplayBuffer, ReplayBuffer
+    Res = namedtuple("Res", ["global_step"])
+    for i in range(n):
+        K_tasks = int(rng.integers(2, 5))
+        K = int(rng.integers(1, K_tasks))
+        b1, b2 = int(rng.integers(20, 60)), int(rng.integers(5, 20))
+        kappa = float([0.1, 0.25, 0.8][i % 3])
+        interval = int([1, 2][i % 2])
+        envs = [ScriptEnv([(int(rng.integers(1, 5)), str(rng.choice(["term", "trunc"])))], env_id=k, discrete=2) for k in range(K_tasks)]
+
+        class TS:
+            def __len__(self):
+                return K_tasks
+
+            def get_task(self, k):
+                return envs[int(k)]
+
+        def train_st(env, total_timesteps, total_episodes=None, global_step=0, **kw):
+            step, eps = global_step, 0
+            env.reset()
+            while step < total_timesteps:
+                _, _, te, tr_, _ = env.step(0)
+                step += 1
+                if te or tr_:
+                    eps += 1
+                    if total_episodes is not None and eps >= total_episodes:
+                        break
+                    env.reset()
+            return Res(step)
+        case = {"scheduler": "train_smt", "n_tasks": K_tasks, "K": K, "b1": b1, "b2": b2, "kappa": kappa, "scheduling_interval": interval,
+                "episode_lengths": [e.script[0][0] for e in envs]}
+        chk.case(("smt", str(case)))
+        chk.count("smt_cases")
+        import contextlib
+        import io
+        with contextlib.redirect_stdout(io.StringIO()):
+            ok, out = chk.impl_call("C11:train_smt:raised", case, train_smt, TS(), train_st, MultiTaskReplayBuffer(ReplayBuffer(10), K_tasks), b1=b1, b2=b2,
+                                    solved_threshold=1e9, unsolvable_threshold=-1e9, scheduling_interval=interval, kappa=kappa, K=K, n_average=2,
+                                    learning_starts=0, seed=i, progress_bar=False)
+        if not ok:
+            continue
+        _, per_task, _ = out
+        per_env = [len(e.step_events()) for e in envs]
+        if sum(per_env) > b1 + b2 or [int(x) for x in per_task] != per_env:
+            chk.fail("C11:train_smt:totals", "scheduled multi-task training: per-task step totals differ from the steps executed on the tasks' environments, or "
+                     "the budget b1 + b2 was exceeded", {"case": case, "executed_per_task": per_env, "reported_per_task": [int(x) for x in per_task], "budget": b1 + b2})
+        if any(v != per_env[0] for v in per_env) or True:
+            chk.count("smt_steps_executed", sum(per_env))
 
 
 def scheduler_cases(chk, rng, n):
@@ -370,6 +428,7 @@ def main(chk):
     onpolicy_cases(chk, rng, 6 if q else 60)
     selector_cases(chk, rng, 12 if q else 200)
     scheduler_cases(chk, rng, 6 if q else 100)
+    smt_cases(chk, rng, 9 if q else 120)
     r0 = recs[0]
     chk.sample({"case": lc.case_of(r0), "model": {k: r0["model"][k] for k in ("step", "stop", "episodes", "updates", "resets")}})
     return chk.finish(
@@ -380,6 +439,6 @@ def main(chk):
              "independent float64 decision rule; train_uts / train_active_mt with a contract-obeying stub routine; the five tabular routines on a "
              "scripted discrete environment (steps vs budget, no step after episode end, steps and resets vs the skeleton)",
         assumptions=["parameter updates are observed as changes of the online critic's parameters between consecutive env.step calls",
-                     "the discounted-UCB decision is compared only when the arg-max margin exceeds 1e-6", "SMT is exercised by the repository's own test only",
+                     "the discounted-UCB decision is compared only when the arg-max margin exceeds 1e-6", "the scheduler stubs obey the single-task contract checked for the real routines above",
                      "reading for on-policy routines (REINFORCE, actor-critic, A2C): total_timesteps is the documented threshold - collection runs to the end of the "
                      "episode / rollout - so the executed steps are compared with that rule, not with total_timesteps itself"])
